@@ -191,6 +191,12 @@ def parse_lit(ts):
         return ("i", u) if u < 2 ** 31 else ("d", u, 0)
     if k == "l" and len(ts) == 2:
         return ("d", int(ts[1]), 0)
+    if k == "L" and len(ts) == 2:          # C++ long: INT inside the int range, NUMBER outside (6c0507b)
+        x = int(ts[1])
+        return ("i", x) if -2 ** 31 <= x < 2 ** 31 else ("d", x, 0)
+    if k == "UL" and len(ts) == 2:
+        x = int(ts[1])
+        return ("i", x) if x < 2 ** 31 else ("d", x, 0)
     if k in ("d", "f") and len(ts) == 3:
         return (k,) + norm_dy(int(ts[1]), int(ts[2]))
     if k == "b" and len(ts) == 2:
@@ -278,8 +284,22 @@ class Sim:
             o.items[k] = None
         return ("obj", o, k)
 
-    def step_mut(self, loc, s, guard):
+    @staticmethod
+    def invalidates(v, s, src):
+        """would v[s] move the element the source reference designates (known finding autocreate-invalidates-source)?"""
+        if src is None or src[0] == "slot" or v is not src[1]:
+            return False
+        if isinstance(v, Arr):
+            return s[0] == "i" and s[1] >= len(v.items) and s[1] + 1 > v.cap
+        if isinstance(v, Obj):
+            k = str(s[1]).encode() if s[0] == "i" else s[1]
+            return k not in v.items and (len(v.items) >= v.cap or k < src[2])
+        return False
+
+    def step_mut(self, loc, s, guard, src=None):
         v = self.read(loc)
+        if guard and self.invalidates(v, s, src):
+            raise Skip("skip-source-moved")
         if s[0] == "i":
             i = s[1]
             if isinstance(v, Arr):
@@ -303,11 +323,20 @@ class Sim:
             return self.index_key(v, k, guard)
         raise Skip("badarg")
 
-    def resolve_mut(self, p, guard):
+    def resolve_mut(self, p, guard, src=None):
         loc = ("slot", p[0])
         for s in p[1]:
-            loc = self.step_mut(loc, s, guard)
+            loc = self.step_mut(loc, s, guard, src)
         return loc
+
+    def source(self, q):
+        """the source reference of a statement, evaluated before the target path: its location (None = static none)"""
+        self.cget(q)                 # raises nopath for an array index out of range
+        return self.cloc(q)
+
+    def through(self, sl):
+        """the value read through the source reference after the target path has been evaluated"""
+        return None if sl is None else self.read(sl)
 
     def cget(self, p):
         v = self.slots[p[0]]
@@ -483,8 +512,9 @@ class Sim:
             return "ok"
         if op == "setv":
             p, q = parse_path(t[1]), parse_path(t[2])
-            loc = self.resolve_mut(p, guard)
-            src = self.cget(q)
+            sl = self.source(q)
+            loc = self.resolve_mut(p, guard, sl)
+            src = self.through(sl)
             par = self.parent_of(loc)
             if par is not None and self.reaches(src, par):
                 raise Skip("cyclic")
@@ -497,15 +527,16 @@ class Sim:
             return "ok"
         if op == "app":
             p, q = parse_path(t[1]), parse_path(t[2])
-            loc = self.resolve_mut(p, guard)
-            src = self.cget(q)
+            sl = self.source(q)
+            loc = self.resolve_mut(p, guard, sl)
+            src = self.through(sl)
             v = self.read(loc)
             par = self.parent_of(loc)
             if isinstance(v, Arr) and self.reaches(src, v):
                 raise Skip("cyclic")
             if v is None and par is not None and self.reaches(src, par):
                 raise Skip("cyclic")        # the new array is stored inside `par`
-            if v is None and self.same_loc(self.cloc(q), loc):
+            if v is None and self.same_loc(sl, loc):
                 raise Skip("cyclic")        # v << v on an undefined v
             if isinstance(v, Arr) and q[0] == p[0] and len(q[1]) == len(p[1]) + 1 and q[1][:-1] == p[1]:
                 self.count("append of an own element")
@@ -556,8 +587,9 @@ class Sim:
             return "ok"
         if op == "ext":
             p, q = parse_path(t[1]), parse_path(t[2])
-            loc = self.resolve_mut(p, guard)
-            src = self.cget(q)
+            sl = self.source(q)
+            loc = self.resolve_mut(p, guard, sl)
+            src = self.through(sl)
             v = self.read(loc)
             if isinstance(v, Obj) and isinstance(src, Obj):
                 newkeys = 0
@@ -772,7 +804,7 @@ def rfloat(rng):
     return (rng.randrange(-2000, 2000), rng.randrange(0, 5))
 
 
-def rlit(rng, kinds="iuldfbsc"):
+def rlit(rng, kinds="iuldfbscLU"):
     k = rng.choice(kinds)
     if k == "i":
         r = rng.random()
@@ -781,6 +813,12 @@ def rlit(rng, kinds="iuldfbsc"):
         return "u %d" % rng.choice([0, 1, 7, 2 ** 31 - 1, 2 ** 31, 2 ** 31 + 1, 2 ** 32 - 1, rng.randrange(0, 2 ** 32)])
     if k == "l":
         return "l %d" % rng.choice([0, -1, 2 ** 31, -2 ** 31 - 1, 2 ** 53 - 1, -2 ** 53 + 1, rng.randrange(-2 ** 53 + 1, 2 ** 53), rng.choice(INTS)])
+    if k == "L":
+        return "L %d" % rng.choice([0, -1, 5, 2 ** 31 - 1, 2 ** 31, -2 ** 31, -2 ** 31 - 1, 2 ** 32 + 5, 1099511627781, -1099511627781,
+                                    2 ** 53 - 1, -2 ** 53 + 1, rng.randrange(-2 ** 53 + 1, 2 ** 53), rng.randrange(-2 ** 33, 2 ** 33)])
+    if k == "U":
+        return "UL %d" % rng.choice([0, 7, 2 ** 31 - 1, 2 ** 31, 2 ** 32 - 1, 2 ** 32, 4294967303, 2 ** 53 - 1, rng.randrange(0, 2 ** 53),
+                                     rng.randrange(0, 2 ** 34)])
     if k == "d":
         return "d %d %d" % rdouble(rng)
     if k == "f":
@@ -872,9 +910,39 @@ class Gen:
                 return path_str(root, steps[:cut]), path_str(root, steps)
         return None
 
+    def sibling(self):
+        """(P, Q): Q an existing element/property of a container, P a not yet existing element/property of the SAME
+        container (`v[5] = v[0]`, `v["a"] = v["b"]`): the auto-creation may move what Q designates"""
+        rng = self.rng
+        for _ in range(8):
+            root, steps, v = self.rand_path(deep=0.6)
+            if is_cont(v) and len(v.items) > 0:
+                if isinstance(v, Arr):
+                    L = len(v.items)
+                    q = ("i", rng.randrange(L))
+                    pnew = ("i", rng.choice([L, L, L + 1, v.cap - 1, v.cap, v.cap + 1, 2 * v.cap]))
+                    if pnew[1] < L:
+                        pnew = ("i", L)
+                else:
+                    q = ("k", rng.choice(sorted(v.items)))
+                    pnew = ("k", rng.choice(KEYS)) if rng.random() < 0.9 else ("i", rng.randrange(0, 4))
+                extra = [rng.choice([("i", 0), ("k", b"a")])] if rng.random() < 0.2 else []
+                return path_str(root, list(steps) + [pnew] + extra), path_str(root, list(steps) + [q])
+        return None
+
     def mutate(self):
         rng = self.rng
         r = rng.random()
+        if r < 0.03:
+            pq = self.sibling()
+            if pq is None:
+                return
+            line = "%s %s %s" % ((rng.choice(["setv", "setv", "app", "ext"]),) + pq)
+            # half of them may fall into the known finding (refused as skip-source-moved): the guard itself is compared
+            if rng.random() < 0.5 and self.would(line) == "skip-source-moved":
+                return
+            self.emit(line)
+            return
         if r < 0.20:
             line = "set %s %s" % (self.target_path(), rlit(rng))
         elif r < 0.25:
@@ -943,7 +1011,7 @@ class Gen:
             else:
                 line = "ctor %d %s" % (k, rlit(rng))
         # most of the time avoid operations that the known-finding guard would refuse (they change nothing)
-        if rng.random() < 0.8 and self.would(line) == "skip-shared-growth":
+        if rng.random() < 0.8 and self.would(line) in ("skip-shared-growth", "skip-source-moved"):
             return
         self.emit(line)
 
@@ -1034,6 +1102,8 @@ def lit_cases(rng, tier):
         if i >= 0:
             lits.append("u %d" % i)
     lits += ["u %d" % u for u in (2 ** 31 - 1, 2 ** 31, 2 ** 31 + 1, 2 ** 32 - 1)]
+    lits += ["L %d" % x for x in (0, -7, 2 ** 31 - 1, 2 ** 31, -2 ** 31, -2 ** 31 - 1, 1099511627781, -1099511627781, 2 ** 32 + 5, 2 ** 53 - 1)]
+    lits += ["UL %d" % x for x in (0, 7, 2 ** 31 - 1, 2 ** 31, 2 ** 32 - 1, 2 ** 32, 4294967303, 2 ** 53 - 1)]
     lits += ["b 0", "b 1", "d 1 1", "d 3 2", "d -5 3", "f 1 1", "f 13421773 27", "d 1 60", "d 7 1074", "l 9007199254740991",
              "d 9007199254740991 0", "d -9007199254740991 10", "d 1 10", "d 1234567890123457 20"]
     for _ in range(40 if tier == "quick" else 400):
@@ -1232,6 +1302,10 @@ def distribution(cases):
 # ------------------------------------------------------------------ known finding
 
 KNOWN = [{
+    "key": "autocreate-invalidates-source",
+    "desc": "v << \"long string\" << 2; v[5] = v[0]: the auto-creating target path reallocates the block the source reference points into",
+    "case": ["reset", "appl 0 s 61206c6f6e6720737472696e672076616c75652068657265", "appl 0 i 2", "!setv 0/i5 0/i0", "dump 0", "drop 0"],
+}, {
     "key": "shared-growth",
     "desc": "Var c = v; then growing v's array reallocates the block c shares (use after free through c)",
     "case": ["reset", "appl 0 i 1", "appl 0 i 2", "appl 0 i 3", "copy 1 0", "!appl 0 i 4", "!appl 0 i 5", "dump 1", "drop 1", "drop 0"],
